@@ -8,9 +8,10 @@
    layer (2) (C19_seq_refines), the abstract parser of (2) to over-approximate
    Model/Parser.v (C19_parser_sim).
 
-   Findings F5/F6 (send_continue overwrites completed = True): the theorems about
-   counts and well-formedness are stated outside the class `bad` / `kf_turn`
-   (names ..._partial) and the class is exhibited by the ..._refuted lemmas. *)
+   Findings F5/F6 (send_continue used to overwrite completed = True) were repaired
+   in the code (fix e3537e2); the statement is gone from both models and the
+   theorems hold for ALL requests, including those complete or refused at the end
+   of their header block (C19_send_then_queue, C19_former_F5, C19_former_F6). *)
 From Coq Require Import List NArith ZArith Bool.
 From RecordUpdate Require Import RecordUpdate.
 From WV Require Import Model.ChanExpect.
@@ -26,10 +27,9 @@ Module CS := WV.Proof.ChanExpectSeq.
 (* ---- the interleaving model: every schedule ------------------------------ *)
 
 (* at most one interim response per request (parser object) *)
-Theorem C19_count_partial : forall sched i,
-  ~ In i (CE.bad (CE.run sched)) -> cnt i (CE.outlog (CE.run sched)) <= 1.
+Theorem C19_count : forall sched i, cnt i (CE.outlog (CE.run sched)) <= 1.
 Proof. exact CP.count_le_one. Qed.
-Print Assumptions C19_count_partial.
+Print Assumptions C19_count.
 
 (* exactly one, and nobody is left waiting: at every point where no thread is
    inside a critical section of requests_lock, if the connection is up and not
@@ -37,22 +37,21 @@ Print Assumptions C19_count_partial.
    block and nothing is queued or in service before it, its interim response has
    been appended (by the I/O thread or by the worker that finished the
    preceding request), exactly once *)
-Theorem C19_wait_partial : forall sched q,
+Theorem C19_wait : forall sched q,
   let s := CE.run sched in
   CE.rlock s = false -> CE.connected s = true -> CE.close_when_flushed s = false ->
   CE.requests s = [] -> CE.request s = Some q -> CE.a_hf q = true -> CE.g_asked q = true ->
-  ~ In (CE.rid q) (CE.bad s) ->
   cnt (CE.rid q) (CE.outlog s) = 1 /\ CE.a_expect q = false /\ CE.sent_continue s = true.
 Proof. exact CP.never_left_waiting. Qed.
-Print Assumptions C19_wait_partial.
+Print Assumptions C19_wait.
 
 (* while it is not yet its turn nothing has been sent for it *)
-Theorem C19_deferred_partial : forall sched q,
+Theorem C19_deferred : forall sched q,
   let s := CE.run sched in
-  CE.rlock s = false -> CE.request s = Some q -> CE.a_expect q = true -> ~ In (CE.rid q) (CE.bad s) ->
+  CE.rlock s = false -> CE.request s = Some q -> CE.a_expect q = true ->
   cnt (CE.rid q) (CE.outlog s) = 0.
 Proof. exact CP.deferred_while_queued. Qed.
-Print Assumptions C19_deferred_partial.
+Print Assumptions C19_deferred.
 
 (* the two sending sites exclude each other; one worker at a time *)
 Theorem C19_exclusive : forall sched,
@@ -99,19 +98,29 @@ Proof. exact CP.interim_only_if_asked. Qed.
 Print Assumptions C19_asked.
 
 (* a queued request is complete, not empty and only its own header block was parsed into it *)
-Theorem C19_own_partial : forall sched r,
+Theorem C19_own : forall sched r,
   In r (CE.requests (CE.run sched)) ->
-  CE.a_completed r = true /\ CE.a_empty r = false /\
-  (~ In (CE.rid r) (CE.bad (CE.run sched)) -> CE.g_heads r <= 1).
+  CE.a_completed r = true /\ CE.a_empty r = false /\ CE.g_heads r <= 1.
 Proof. exact CP.queued_own_head. Qed.
-Print Assumptions C19_own_partial.
+Print Assumptions C19_own.
 
-(* the class: an object is bad iff send_continue on the I/O thread found it completed *)
-Theorem C19_bad_class : forall sched c s' l,
-  CE.step (CE.run sched) c = Some (s', l) ->
-  forall i, In i (CE.bad s') -> In i (CE.bad (CE.run sched)) \/ (c = CE.CIOSend /\ In (CE.LReset i) l).
-Proof. exact CP.bad_iff_reset. Qed.
-Print Assumptions C19_bad_class.
+(* the request is never lost: a completed request does not stay under construction *)
+Theorem C19_not_lost : forall sched q,
+  (forall m, CE.io (CE.run sched) <> CE.IOSend m) -> CE.request (CE.run sched) = Some q ->
+  CE.a_completed q = false.
+Proof. exact CP.completed_never_kept. Qed.
+Print Assumptions C19_not_lost.
+
+(* ... in particular one that was complete (or refused) at the end of its header
+   block while at the head of the line is queued by the step that sends its
+   interim response (the class of the former findings F5/F6) *)
+Theorem C19_send_then_queue : forall sched s' l,
+  CE.step (CE.run sched) CE.CIOSend = Some (s', l) ->
+  forall q, CE.request (CE.run sched) = Some q -> CE.a_completed q = true ->
+  CE.request s' = None /\ CE.sent_continue s' = false /\
+  (CE.a_empty q = false -> CE.requests s' = [q] /\ In (CE.LQueue (CE.rid q)) l /\ In CE.LAddTask l).
+Proof. exact CP.send_then_queue. Qed.
+Print Assumptions C19_send_then_queue.
 
 (* ---- the parser and the sequential channel: every byte stream, every segmentation *)
 
@@ -145,32 +154,28 @@ Theorem C19_seq_none : forall a reads c rs,
 Proof. exact CS.seq_no_interim. Qed.
 Print Assumptions C19_seq_none.
 
-Theorem C19_seq_wf_partial : forall a reads c0 c,
-  feed a c0 reads = COk c -> CS.wf_cur c0 ->
-  CS.feed_all (fun c r1 => ~ CS.kf_turn c r1) a c0 reads -> CS.wf_cur c.
+(* for all pipelines and all segmentations the object under construction is
+   well-formed: not completed; header block finished => it has a body receiver
+   (it never parses a second header block); before that, no header field *)
+Theorem C19_seq_wf : forall a reads c0 c,
+  feed a c0 reads = COk c -> CS.wf_cur c0 -> CS.wf_cur c.
 Proof. exact CS.seq_wf_run. Qed.
-Print Assumptions C19_seq_wf_partial.
+Print Assumptions C19_seq_wf.
 
-(* ---- the findings ----------------------------------------------------------- *)
+(* ---- the pipelines of the former findings F5/F6 -------------------------------- *)
 
-Theorem C19_F5_refuted : exists c,
+Theorem C19_former_F5 : exists c,
   feed CS.adj_default chan_init [CS.req_a_expect_nobody ++ CS.req_b_plain] = COk c /\
   outlog c = continue_bytes /\
-  map path (requests c) = [[47;98]%N] /\
-  map (fun r => hget (headers r) s_EXPECT) (requests c) = [Some s_100_continue] /\
-  add_task_calls c = 1%nat.
-Proof. exact CS.F5_refuted. Qed.
-Print Assumptions C19_F5_refuted.
+  map path (requests c) = [[47;97]%N; [47;98]%N] /\
+  map (fun r => hget (headers r) s_EXPECT) (requests c) = [Some s_100_continue; None] /\
+  add_task_calls c = 1%nat /\ request c = None /\ sent_continue c = false.
+Proof. exact CS.ex_former_F5. Qed.
+Print Assumptions C19_former_F5.
 
-Theorem C19_F5_wf_refuted : exists c,
-  feed CS.adj_default chan_init [CS.req_a_expect_nobody] = COk c /\ ~ CS.wf_cur c /\
-  requests c = [] /\ outlog c = continue_bytes.
-Proof. exact CS.F5_not_wf. Qed.
-Print Assumptions C19_F5_wf_refuted.
-
-Theorem C19_F6_refuted : exists c r,
+Theorem C19_former_F6 : exists c r,
   feed CS.adj_small_body chan_init [CS.req_a_expect_big] = COk c /\
-  outlog c = continue_bytes /\ requests c = [] /\ add_task_calls c = 0%nat /\
-  request c = Some r /\ error r = Some EBodyTooLarge /\ completed r = false.
-Proof. exact CS.F6_refuted. Qed.
-Print Assumptions C19_F6_refuted.
+  outlog c = continue_bytes /\ requests c = [r] /\ add_task_calls c = 1%nat /\
+  request c = None /\ error r = Some EBodyTooLarge /\ completed r = true.
+Proof. exact CS.ex_former_F6. Qed.
+Print Assumptions C19_former_F6.
